@@ -49,3 +49,25 @@ def run(variant, body, timeout=300):
     if "@@RESULT@@" not in r.stdout:
         return {"__failed__": True, "returncode": r.returncode, "stderr": r.stderr[-1500:], "stdout": r.stdout[-300:]}
     return json.loads(r.stdout.split("@@RESULT@@", 1)[1])
+
+
+def digests_agree(ctx, prop, module, fn, variants):
+    """`module.fn()` returns {name: digest}: what it gives in freshly started interpreters (see VARIANTS) must be
+    what it gives in this process."""
+    import importlib
+
+    from vlib.harness import Ctx  # noqa: F401
+
+    here = getattr(importlib.import_module(module), fn)()
+    body = "from %s import %s as _f\nimport logging\nlogging.disable(logging.CRITICAL)\nRESULT = _f()\n" % (module, fn)
+    for v in variants:
+        res = run(v, body)
+        rec = {"op": "interpreter", "variant": v}
+        ctx.case(len(here))
+        if res.get("__failed__"):
+            ctx.check(False, prop + ".interpreter.fails", "in a fresh interpreter (%s): rc=%r %s" % (v, res.get("returncode"), (res.get("stderr") or "")[-400:]), key=prop + ".interpreter:" + v, recipe=rec)
+            continue
+        bad = sorted(k for k in here if res.get(k) != here[k])
+        ctx.check(not bad, prop + ".interpreter.differs", "in an interpreter started as %r, %r gives %r, here %r" % (v, bad[:1], res.get(bad[0]) if bad else None, here.get(bad[0]) if bad else None), key=prop + ".interpreter:" + v, recipe=rec)
+        ctx.label("interpreter_" + v)
+        ctx.mark_nontrivial(rec)
